@@ -9,10 +9,10 @@ import (
 	"crypto/sha256"
 	"fmt"
 	"github.com/decred/dcrd/dcrec/secp256k1/v4/ecdsa"
-	"github.com/obolnetwork/charon/zzverif/fakebn"
-	"github.com/obolnetwork/charon/zzverif/memnet"
 	"github.com/libp2p/go-libp2p/core/peer"
 	"github.com/obolnetwork/charon/p2p"
+	"github.com/obolnetwork/charon/zzverif/fakebn"
+	"github.com/obolnetwork/charon/zzverif/memnet"
 	"sort"
 	"strings"
 	"sync"
@@ -764,13 +764,21 @@ func TestC05Handle(t *testing.T) {
 		}
 		var herr error
 		from := senderOf(rt, n, m)
+		// in a quarter of the cases the receive deadline passes while the message is being verified: the context's
+		// Err() turns non-nil at a drawn poll (the handler polls it between justifications). Whatever the handler
+		// does then, an altered message must not get in.
+		hctx := ctx
+		if rapid.IntRange(0, 3).Draw(rt, "deadlineDuringVerification") == 0 {
+			hctx = newPollCtx(rapid.IntRange(0, len(m.GetJustification())+3).Draw(rt, "expiresAtPoll"))
+			how += "+receive_deadline_mid_verification"
+		}
 		func() {
 			defer func() {
 				if r := recover(); r != nil {
 					rt.Fatalf("PANIC in handle for %s/%s/%s/%s: %v", shape, level, field, how, r)
 				}
 			}()
-			_, _, herr = c.handle(ctx, from, m)
+			_, _, herr = c.handle(hctx, from, m)
 		}()
 		inst, buf := bufState(c)
 		if totalityOnly {
@@ -999,3 +1007,32 @@ func cls05(name string, on bool) string {
 	}
 	return ""
 }
+
+// pollCtx is a context whose deadline passes at the k-th time somebody asks for its error.
+type pollCtx struct {
+	context.Context
+	mu   sync.Mutex
+	left int
+	done chan struct{}
+}
+
+func newPollCtx(k int) *pollCtx {
+	return &pollCtx{Context: context.Background(), left: k, done: make(chan struct{})}
+}
+
+func (p *pollCtx) Err() error {
+	p.mu.Lock()
+	defer p.mu.Unlock()
+	if p.left > 0 {
+		p.left--
+		return nil
+	}
+	select {
+	case <-p.done:
+	default:
+		close(p.done)
+	}
+	return context.DeadlineExceeded
+}
+
+func (p *pollCtx) Done() <-chan struct{} { return p.done }
